@@ -91,6 +91,31 @@ def check_case(rec, case):
     o = call(ra.regexp_simplify, r)
     if not o.ok:
         report_failure(rec, o, 'regexp_simplify', regexp=rx.show(t))
+    if case['cls'].startswith('random') and rx.size_iter(t) <= 12:
+        # (1) an expression built from SHARED sub-expression objects (one object under several parents, as dfa_to_regexp
+        # returns them), (2) the same object asked again after one of its nodes was changed in place; the contracts judge
+        # every call against the content of the expression at the time of the call
+        import gambatools.regexp as gr
+        shared = gr.Sum(gr.Concat(r, r), gr.Iteration(r))
+        for X in (shared, None):
+            if X is None:
+                if not isinstance(r, (gr.Sum, gr.Concat)):
+                    break
+                r.left, r.right = r.right, gr.Iteration(r.left)
+                X = r
+                rec.counters['requery_after_in_place_change'] += 1
+            else:
+                rec.counters['shared_subexpression_objects'] += 1
+            for w in words[:15]:
+                o = call(ra.regexp_accepts_word, X, w, _cpu=10)
+                if o.kind == 'timeout':
+                    break
+                if not o.ok:
+                    report_failure(rec, o, 'regexp_accepts_word', regexp=rx.show(adapt.rx_ref(X)), word=w, derived_object=True)
+                    break
+            o = call(ra.regexp_simplify, X)
+            if not o.ok and o.kind != 'timeout':
+                report_failure(rec, o, 'regexp_simplify', regexp=rx.show(adapt.rx_ref(X)), derived_object=True)
 
 
 def gen_cases(rec, rng, tier):
